@@ -5,6 +5,8 @@ import (
 	"fmt"
 	"os"
 	"path/filepath"
+	"regexp"
+	"regexp/syntax"
 	"sort"
 	"strings"
 
@@ -143,25 +145,29 @@ func predSplit(c splitCase, o *evid.Obs) error {
 		fps[i] = 0x9e3779b97f4a7c15*uint64(i+1) | 1
 	}
 	var upFlags refeval.Flags
-	upstream := func(fromNs, toNs int64, asc bool) []refeval.Row {
-		rows, err := refeval.Select(c.Data, e.Matchers, fromNs, toNs, &upFlags)
-		if err != nil {
-			return nil
+	upstreamOf := func(pre []refeval.Stage) func(fromNs, toNs int64, asc bool) []refeval.Row {
+		return func(fromNs, toNs int64, asc bool) []refeval.Row {
+			rows, err := refeval.Select(c.Data, e.Matchers, fromNs, toNs, &upFlags)
+			if err != nil {
+				return nil
+			}
+			refeval.SortRows(rows, asc)
+			rows, err = refeval.RunStages(pre, rows, &upFlags)
+			if err != nil {
+				return nil
+			}
+			return rows
 		}
-		refeval.SortRows(rows, asc)
-		rows, err = refeval.RunStages(pre, rows, &upFlags)
-		if err != nil {
-			return nil
-		}
-		return rows
 	}
-	mkUp := func(chunks []int) *fakeUpstream {
+	upstream := upstreamOf(pre)
+	mkUpOf := func(up func(int64, int64, bool) []refeval.Row, chunks []int) *fakeUpstream {
 		return &fakeUpstream{
-			rows:        func(f, t int64, asc bool) []shared.LogEntry { return upstreamRows(upstream(f, t, asc), fps) },
+			rows:        func(f, t int64, asc bool) []shared.LogEntry { return upstreamRows(up(f, t, asc), fps) },
 			chunks:      chunks,
 			eofSeparate: c.EOFSeparate,
 		}
 	}
+	mkUp := func(chunks []int) *fakeUpstream { return mkUpOf(upstream, chunks) }
 	p := runParams{c.FromS, c.ToS, c.StepMs, c.Limit, c.Forward}
 
 	// ---- reference -------------------------------------------------------------------------
@@ -188,11 +194,54 @@ func predSplit(c splitCase, o *evid.Obs) error {
 			errRows++
 		}
 	}
+	// Entries that raise a per-entry error (line the parser cannot read, line_format template
+	// failing at run time) are don't-care individually: an engine may keep them (Loki does, with
+	// __error__; qryn keeps unparsable lines with their labels untouched) or drop them (qryn's
+	// in-process line_format does). errTs = timestamps of every input entry that raised one,
+	// whatever later filters would do to it.
+	errTs := map[int64]int{}
+	errKinds := map[string]bool{}
+	if pl, perr := refeval.Compile(e.Stages[split:], &refeval.Flags{}); perr == nil {
+		pl.KeepErrRows = true
+		for _, r := range pl.Run(cloneRows(upRows), &refeval.Flags{}) {
+			if r.Err != "" {
+				errTs[r.TsNs]++
+				errKinds[r.Err] = true
+			}
+		}
+	}
+	if len(errTs) > 0 && errRows == 0 {
+		errRows = -1 // all failing entries were filtered out later on; still a failing-entry case
+	}
+	// metric queries: one acceptable answer per choice of "kept" error kinds
+	var wantCandidates [][]refeval.MetricSeries
 	var wantSeries []refeval.MetricSeries
 	removed := len(finalRows) < len(upRows)
 	if metric {
-		buckets := refeval.MetricFromRows(e, finalRows, &fl)
-		wantSeries = refeval.StepPostProcess(buckets, refeval.MetricParams{FromNs: c.FromS * 1e9, ToNs: c.ToS * 1e9, StepNs: c.StepMs * 1e6}, e.RangeNs(), &fl)
+		mp := refeval.MetricParams{FromNs: c.FromS * 1e9, ToNs: c.ToS * 1e9, StepNs: c.StepMs * 1e6}
+		var kinds []string
+		for k := range errKinds {
+			kinds = append(kinds, k)
+		}
+		sort.Strings(kinds)
+		for mask := 0; mask < 1<<len(kinds); mask++ {
+			kept := map[string]bool{}
+			for i, k := range kinds {
+				if mask&(1<<i) != 0 {
+					kept[k] = true
+				}
+			}
+			var rows []refeval.Row
+			for _, r := range finalRows {
+				if r.Err == "" || kept[r.Err] {
+					r.Err = ""
+					rows = append(rows, r)
+				}
+			}
+			buckets := refeval.MetricFromRows(e, rows, &fl)
+			wantCandidates = append(wantCandidates, refeval.StepPostProcess(buckets, mp, e.RangeNs(), &fl))
+		}
+		wantSeries = wantCandidates[0] // every failing entry dropped
 	}
 	if fl.Unsupported != "" {
 		o.Discard("reference-unsupported")
@@ -259,13 +308,20 @@ func predSplit(c splitCase, o *evid.Obs) error {
 	if split > 0 {
 		o.Tag("has-pre-stages")
 	}
+	classifyRegexAndTemplates(e, split, upRows, &fl, o)
 	o.Tag("batching:"+chunkClass(c.Chunks), "batching:"+chunkClass(c.Chunks2))
 	twins := concatTwins(afterBreaker) || concatTwins(finalRows)
 	if twins {
 		o.Tag("concat-twin-label-sets")
 	}
-	if errRows > 0 {
+	if errKinds["JSONParserErr"] || errKinds["LogfmtParserErr"] {
 		o.Tag("malformed-lines-reach-parser")
+	}
+	if errKinds["TemplateFormatErr"] {
+		o.Tag("template:line_format-fails-for-some-entries")
+		if len(errTs) < len(upRows) {
+			o.Tag("template:failing-and-succeeding-entries-mixed")
+		}
 	}
 	// extraction that overwrites a label the stream already had (afterBreaker is upRows through
 	// the split-forcing stage only, which never drops or reorders rows)
@@ -370,14 +426,15 @@ func predSplit(c splitCase, o *evid.Obs) error {
 
 	// ---- malformed lines: LogQL keeps such entries (with __error__); a log query must not
 	// fail as a whole. A metric query over such entries fails in Loki too: nothing to compare.
-	if errRows > 0 {
-		if metric {
-			o.Tag("dontcare:error-entries-in-metric-query")
+	if errRows != 0 {
+		if metric && (r1.queryErr != nil || r2.queryErr != nil) {
+			// Loki fails a metric query that meets an entry with __error__ as well
+			o.Tag("dontcare:metric-query-fails-on-error-entry")
 			return nil
 		}
 		for _, r := range []runResult{r1, r2} {
 			if r.queryErr != nil {
-				return fmt.Errorf("%s\n a single malformed line makes the whole log query fail: %v", describe(), r.queryErr)
+				return fmt.Errorf("%s\n a single failing entry makes the whole log query fail: %v", describe(), r.queryErr)
 			}
 		}
 	}
@@ -405,6 +462,33 @@ func predSplit(c splitCase, o *evid.Obs) error {
 		}
 	}
 
+	// ---- metamorphic: a line filter right behind json/logfmt (which leave the line alone) means
+	// the same in front of it, where the SQL side evaluates it (here: the reference) ------------
+	ambiguous := split+2 < len(e.Stages) && e.Stages[split+2].Kind == refeval.KLineFilter &&
+		(e.Stages[split+2].Op == "!=" || e.Stages[split+2].Op == "!~") // `| json != "x"`: see keyword-read-as-label-name
+	if split+1 < len(e.Stages) && breaker.Kind != refeval.KLineFormat && e.Stages[split+1].Kind == refeval.KLineFilter && !ambiguous {
+		e2 := *e
+		e2.Stages = append([]refeval.Stage(nil), e.Stages...)
+		e2.Stages[split], e2.Stages[split+1] = e2.Stages[split+1], e2.Stages[split]
+		r3 := runChain(e2.String(), p, mkUpOf(upstreamOf(e2.Stages[:split+1]), c.Chunks))
+		if r3.planErr == nil && !r3.noSplit && r3.queryErr == nil && r1.queryErr == nil {
+			o.Tag("line-filter-moved-across-split")
+			v3 := clientView(r3.entries)
+			d := ""
+			if metric {
+				p1, _ := matrixPoints(v1)
+				p3, _ := matrixPoints(v3)
+				d = diffPoints(p3, p1)
+			} else if c.Limit == 0 || int(c.Limit) >= len(upRows) {
+				d = diffKeys(logKeys(v3), logKeys(v1))
+			}
+			if d != "" {
+				return fmt.Errorf("%s\n the line filter %s selects differently in-process than in front of the split (%s; that result taken as reference):%s",
+					describe(), e.Stages[split+1].String(), e2.String(), d)
+			}
+		}
+	}
+
 	var skip []string
 	for _, r := range fl.DontCare {
 		if r == "label_format-missing-source" {
@@ -412,11 +496,18 @@ func predSplit(c splitCase, o *evid.Obs) error {
 			// leave dst alone, which is what the reference computed
 			continue
 		}
+		if r == "label-filter-on-error-entry" || r == "error-entry-in-metric-query" {
+			// failing entries are don't-care one by one (errTs / candidate answers below)
+			continue
+		}
 		skip = append(skip, r)
 	}
 	if len(skip) > 0 {
 		for _, r := range skip {
 			o.Tag("dontcare:" + r)
+			if os.Getenv("C09_DEBUG_DC") == r {
+				fmt.Printf("DC %s %s\n   %v\n", r, query, c.Data[0].Entries)
+			}
 		}
 		return nil
 	}
@@ -438,26 +529,60 @@ func predSplit(c splitCase, o *evid.Obs) error {
 			if dup != "" {
 				return fmt.Errorf("%s\n run %d: label set %s comes out as two separate series", describe(), i+1, dup)
 			}
-			if d := diffPoints(refPoints(wantSeries), got); d != "" {
-				return fmt.Errorf("%s\n run %d (batching %v): matrix differs from the LogQL definition:%s", describe(), i+1, []any{c.Chunks, c.Chunks2}[i], d)
+			d := ""
+			for _, cand := range wantCandidates {
+				if d = diffPoints(refPoints(cand), got); d == "" {
+					break
+				}
+			}
+			if d != "" {
+				note := ""
+				if len(wantCandidates) > 1 {
+					note = fmt.Sprintf(" (no choice of kept/dropped failing entries explains it; shown against 'all dropped', %d candidates)", len(wantCandidates))
+				}
+				return fmt.Errorf("%s\n run %d (batching %v): matrix differs from the LogQL definition%s:%s", describe(), i+1, []any{c.Chunks, c.Chunks2}[i], note, d)
 			}
 			continue
 		}
 		got := logKeys(v)
-		if errRows > 0 {
-			// entries whose line could not be parsed: kept or dropped, with or without the
-			// partial extraction - only the well-formed ones are compared
+		if errRows != 0 {
+			// failing entries: kept or dropped, with whatever line / labels; every OTHER entry
+			// must come out exactly as if the failing ones were not there
 			var good []refeval.Row
 			for _, r := range finalRows {
 				if r.Err == "" {
 					good = append(good, r)
 				}
 			}
-			if c.Limit != 0 && int(c.Limit) < len(finalRows) {
+			if c.Limit != 0 && int(c.Limit) < len(finalRows)+len(errTs) {
 				continue
 			}
 			if d := subsetDiff(rowKeys(good), got); d != "" {
-				return fmt.Errorf("%s\n run %d: well-formed entries missing from the result:%s", describe(), i+1, d)
+				return fmt.Errorf("%s\n run %d (batching %v): entries next to a failing entry are missing or altered:%s", describe(), i+1, []any{c.Chunks, c.Chunks2}[i], d)
+			}
+			// what is left over must be the failing entries themselves (matched by timestamp)
+			left := map[string]int{}
+			for _, k := range got {
+				left[k]++
+			}
+			for _, k := range rowKeys(good) {
+				left[k]--
+			}
+			budget := map[int64]int{}
+			for t, n := range errTs {
+				budget[t] = n
+			}
+			for _, s := range v {
+				for _, en := range s.entries {
+					k := fmt.Sprintf("%s @%d %q", s.key, en.ts, en.line)
+					if left[k] > 0 {
+						left[k]--
+						if budget[en.ts] == 0 {
+							return fmt.Errorf("%s\n run %d (batching %v): unexpected entry %s (not a well-formed entry of the reference and no failing entry has this timestamp)", describe(), i+1, []any{c.Chunks, c.Chunks2}[i], k)
+						}
+						budget[en.ts]--
+					}
+				}
 			}
 			continue
 		}
@@ -473,6 +598,71 @@ func predSplit(c splitCase, o *evid.Obs) error {
 		}
 	}
 	return nil
+}
+
+var (
+	reFlagPrefix = regexp.MustCompile(`^\(\?[a-zA-Z]+\)`)
+	tplFuncCall  = regexp.MustCompile(`\{\{-?\s*[a-zA-Z(]`)
+)
+
+// classifyRegexAndTemplates tags the regex line filters and templates of the in-process part.
+func classifyRegexAndTemplates(e *refeval.Expr, split int, upRows []refeval.Row, fl *refeval.Flags, o *evid.Obs) {
+	for off, st := range e.Stages[split+1:] {
+		switch st.Kind {
+		case refeval.KLineFilter:
+			if st.Op != "|~" && st.Op != "!~" {
+				continue
+			}
+			// the lines as they reach this filter
+			atFilter, _ := refeval.RunStages(e.Stages[split:split+1+off], cloneRows(upRows), &refeval.Flags{})
+			o.Tag("regex:in-process")
+			pat := st.Val
+			flags := reFlagPrefix.FindString(pat)
+			body := pat[len(flags):]
+			parsed, err := syntax.Parse(body, syntax.Perl)
+			literal := err == nil && parsed.Simplify().Op == syntax.OpLiteral
+			switch {
+			case flags != "" && literal:
+				o.Tag("regex:flags+literal")
+			case flags != "":
+				o.Tag("regex:flags+regex")
+			case literal && strings.Contains(body, "\\"):
+				o.Tag("regex:escaped-literal")
+			case literal:
+				o.Tag("regex:plain-text")
+			default:
+				o.Tag("regex:real-regex")
+			}
+			if flags != "" {
+				// does the flag decide for some line of the data?
+				with, e1 := regexp.Compile(pat)
+				without, e2 := regexp.Compile(body)
+				if e1 == nil && e2 == nil {
+					for _, r := range atFilter {
+						if with.MatchString(r.Line) != without.MatchString(r.Line) {
+							o.Tag("regex:flag-decides-for-some-line")
+							break
+						}
+					}
+				}
+			}
+		case refeval.KLineFormat:
+			if tplFuncCall.MatchString(st.Val) {
+				o.Tag("template:line_format-with-functions")
+			}
+		case refeval.KLabelFormat:
+			for _, prm := range st.Params {
+				if prm.HasVal && tplFuncCall.MatchString(prm.Val) {
+					o.Tag("template:label_format-with-functions")
+				}
+			}
+		}
+	}
+	for _, d := range fl.Deviations {
+		if d == "label_format-template-error-leaves-label" {
+			o.Tag("template:label_format-fails-for-some-entries")
+		}
+	}
 }
 
 // checkLimit: got must be `limit` of the surviving rows: everything strictly before the cut
